@@ -44,6 +44,8 @@ def run(ck, ix, tier):
     memo.rule_lru_purity(ck, ix)
     memo.rule_shared_mutable_state(ck, ix)
     inventory(ck, ix)
+    from .C08 import casei_writers_rule
+    casei_writers_rule(ck, ix)  # the 'defined spelling' index does not depend on lookup history
     return EXPLANATION
 
 
